@@ -223,7 +223,7 @@ def _editor_chunk(arg: tuple) -> tuple[int, list]:
 def core(prop: str, tier: str, rep: common.Reporter) -> dict:
     seed = common.seed()
     if tier == 'quick':
-        docs, r = doclib.layouts(max_lines=2, eols=('lf', 'crlf'), accepted_only=True)
+        docs, r = doclib.layouts(max_lines=2, eols=('lf', 'crlf'), finals=(True, False), accepted_only=True)
         docs3, r3 = doclib.layouts(max_lines=3, accepted_only=True)
         rng = random.Random(seed)
         docs3 = [d for d in docs3 if len(d['lines']) == 3]
@@ -231,7 +231,7 @@ def core(prop: str, tier: str, rep: common.Reporter) -> dict:
         flavors = [seed % 12]
         depth2 = 4
     else:
-        docs, r = doclib.layouts(max_lines=3, eols=('lf', 'crlf'), accepted_only=True)
+        docs, r = doclib.layouts(max_lines=3, eols=('lf', 'crlf'), finals=(True, False), accepted_only=True)
         docs4, r3 = doclib.layouts(max_lines=4, accepted_only=True)
         rng = random.Random(seed)
         docs4 = [d for d in docs4 if len(d['lines']) == 4]
